@@ -27,12 +27,17 @@ pub(crate) struct SystemCommandSetup
 {
     reactor: SystemCommand,
     setup: fn(&mut World, SystemCommand),
+    #[cfg(cobweb_verif)]
+    id: u64,
 }
 
 impl SystemCommandSetup
 {
     pub(crate) fn new(reactor: SystemCommand, setup: fn(&mut World, SystemCommand)) -> Self
     {
+        #[cfg(cobweb_verif)]
+        { return Self { reactor, setup, id: crate::verif::next_id() }; }
+        #[cfg(not(cobweb_verif))]
         Self { reactor, setup }
     }
 
@@ -46,6 +51,9 @@ impl Default for SystemCommandSetup
 {
     fn default() -> Self
     {
+        #[cfg(cobweb_verif)]
+        { return Self{ reactor: SystemCommand(Entity::PLACEHOLDER), setup: |_, _| {}, id: crate::verif::next_id() }; }
+        #[cfg(not(cobweb_verif))]
         Self{
             reactor: SystemCommand(Entity::PLACEHOLDER),
             setup: |_, _| {}
@@ -78,6 +86,8 @@ pub(crate) fn syscommand_runner(
 )
 {
     let idx = **world.resource::<SyscommandCounter>();
+    #[cfg(cobweb_verif)]
+    crate::verif::emit(crate::verif::Event::Enter{ k: setup.id, sys: *command, idx });
 
     // cleanup
     garbage_collect_entities(world);
@@ -88,14 +98,22 @@ pub(crate) fn syscommand_runner(
     let Ok(mut entity_mut) = world.get_entity_mut(*command)
     else
     {
+        #[cfg(cobweb_verif)]
+        crate::verif::emit(crate::verif::Event::Abort{ k: setup.id, why: "despawned" });
         cleanup_on_abort(world, setup, cleanup);
+        #[cfg(cobweb_verif)]
+        crate::verif::emit(crate::verif::Event::Exit{ k: setup.id });
         return
     };
     let Some(mut system_command) = entity_mut.get_mut::<SystemCommandStorage>()
     else
     {
         tracing::error!(?command, "system command component is missing on extract");
+        #[cfg(cobweb_verif)]
+        crate::verif::emit(crate::verif::Event::Abort{ k: setup.id, why: "nostorage" });
         cleanup_on_abort(world, setup, cleanup);
+        #[cfg(cobweb_verif)]
+        crate::verif::emit(crate::verif::Event::Exit{ k: setup.id });
         return
     };
     let Some(mut callback) = system_command.take()
@@ -104,19 +122,27 @@ pub(crate) fn syscommand_runner(
         // Cache the callback unless at the bottom of the pile.
         if idx == 0 {
             tracing::warn!(?command, "system command missing");
+            #[cfg(cobweb_verif)]
+            crate::verif::emit(crate::verif::Event::Abort{ k: setup.id, why: "nocallback" });
             cleanup_on_abort(world, setup, cleanup);
         } else {
             tracing::debug!(?command, "deferring suspected recursive system command");
+            #[cfg(cobweb_verif)]
+            crate::verif::emit(crate::verif::Event::Postpone{ k: setup.id });
             world.resource_mut::<CobwebCommandQueue<BufferedSyscommand>>().push(
                 BufferedSyscommand{ command, setup, cleanup }
             );
         }
 
+        #[cfg(cobweb_verif)]
+        crate::verif::emit(crate::verif::Event::Exit{ k: setup.id });
         return
     };
 
     // run the system command
     **world.resource_mut::<SyscommandCounter>() += 1;
+    #[cfg(cobweb_verif)]
+    crate::verif::emit(crate::verif::Event::Take{ k: setup.id });
     setup.run(world);
     callback.run(world, cleanup);
 
@@ -130,10 +156,14 @@ pub(crate) fn syscommand_runner(
         if let Some(mut system_command) = entity_mut.get_mut::<SystemCommandStorage>()
         {
             system_command.insert(callback);
+            #[cfg(cobweb_verif)]
+            crate::verif::emit(crate::verif::Event::Reinsert{ sys: *command });
         }
         else
         {
             std::mem::drop(callback);
+            #[cfg(cobweb_verif)]
+            crate::verif::emit(crate::verif::Event::DropCallback{ sys: *command });
             entity_mut.despawn_recursive();
             tracing::error!(?command, "system command component is missing on insert");
 
@@ -144,6 +174,8 @@ pub(crate) fn syscommand_runner(
     else
     {
         std::mem::drop(callback);
+        #[cfg(cobweb_verif)]
+        crate::verif::emit(crate::verif::Event::DropCallback{ sys: *command });
 
         // In case dropping the callback caused entities to be garbage collected.
         garbage_collect_entities(world);
@@ -163,6 +195,8 @@ pub(crate) fn syscommand_runner(
                 if buffered.command == command
                 {
                     tracing::debug!(?command, "running reordered recursive system command");
+                    #[cfg(cobweb_verif)]
+                    crate::verif::emit(crate::verif::Event::Replay{ k: buffered.setup.id });
                     syscommand_runner(world, buffered.command, buffered.setup, buffered.cleanup);
                     return false;
                 }
@@ -177,12 +211,16 @@ pub(crate) fn syscommand_runner(
     {
         while let Some(to_discard) = world.resource_mut::<CobwebCommandQueue<BufferedSyscommand>>().pop_front() {
             tracing::warn!(?to_discard.command, "failed to run missing system command");
+            #[cfg(cobweb_verif)]
+            crate::verif::emit(crate::verif::Event::Discard{ k: to_discard.setup.id });
             cleanup_on_abort(world, to_discard.setup, to_discard.cleanup);
         }
 
         // Reset the counter since we are exiting the system command tree.
         **world.resource_mut::<SyscommandCounter>() = 0;
     }
+    #[cfg(cobweb_verif)]
+    crate::verif::emit(crate::verif::Event::Exit{ k: setup.id });
 }
 
 //-------------------------------------------------------------------------------------------------------------------
